@@ -248,8 +248,11 @@ package node
 //@   ensures [refused_nothing_pushed] result != nil && (to.Node == n.name || to.Node == "") ==> (forall q lib.QueueMPSC :: pushed(q) == old(pushed(q))) && (forall x *process :: woken(x) == old(woken(x)))
 //@   ensures [unknown_name] n.creation > 0 && (to.Node == n.name || to.Node == "") && !smHas(n.names, any(to.Name)) ==> result == gen.ErrProcessUnknown
 
+//@ ghostheap routed(p gen.PID) int
 //@ func (n *node) RouteSendPID
 //@   props C02 C03
+//@   modifies pushed, woken, routed(to)
+//@   ensures_ghost routed(to) == old(routed(to)) + 1
 //@   requires [tables] processesWF(n) && namesWF(n) && (forall k any :: smHas(n.processes, k) ==> mailboxWF(smVal(n.processes, k).(*process)))
 //@   ensures [accepted_one_push_then_wake] result == nil && to.Node == n.name && n.creation > 0 ==> smHas(n.processes, any(to)) && (pushed(prioQueue(procOf(n, to), options.Priority)) == old(pushed(prioQueue(procOf(n, to), options.Priority))) + 1 && woken(procOf(n, to)) == old(woken(procOf(n, to))) + 1 || procOf(n, to).fallback.Enable)
 //@   ensures [accepted_only_that_queue] result == nil && to.Node == n.name && !procOf(n, to).fallback.Enable ==> forall q lib.QueueMPSC :: q != prioQueue(procOf(n, to), options.Priority) ==> pushed(q) == old(pushed(q))
@@ -487,3 +490,119 @@ package node
 //@   requires p.node != nil
 //@   requires [tables] processesWF(p.node)
 //@   at call RouteSendResponseError assert [reply_carries_the_given_ref] options.Ref == ref && from == p.pid && to == caller_to && err == caller_err
+
+// ---------------------------------------------------------------------------------------------
+// C04 / C14: fan-out when a target goes away. exitSent(p) / routed(p) count the exit signals and the
+// down messages handed to consumer p (ghost counters); the lists come from CleanupTarget, whose
+// contract (verified on the default target manager, assumed for custom ones) makes them
+// duplicate-free.
+//@ ghostheap exitSent(p gen.PID) int
+//@ ghostheap lastLinks() []gen.PID
+//@ ghostheap lastMonitors() []gen.PID
+//@ spec func nodupPIDs(l []gen.PID) bool = forall i, j int :: 0 <= i && i < j && j < len(l) ==> l[i] != l[j]
+
+//@ iface gen.TargetManager.CleanupTarget
+//@   modifies lastLinks(), lastMonitors()
+//@   ensures lastLinks() == result.0 && lastMonitors() == result.1 && nodupPIDs(result.0) && nodupPIDs(result.1)
+
+//@ func (n *node) sendExitMessage
+//@   trusted
+//@   modifies exitSent(to)
+//@   ensures exitSent(to) == old(exitSent(to)) + 1
+
+//@ iface gen.Connection.SendTerminatePID
+//@ iface gen.Connection.SendTerminateEvent
+//@ iface gen.Connection.SendTerminateAlias
+//@ iface gen.Connection.SendTerminateProcessID
+
+//@ func (n *node) RouteTerminatePID
+//@   props C04 C03 C14
+//@   mode int
+//@   may_panic
+//@   requires [tables] processesWF(n) && namesWF(n) && (forall k any :: smHas(n.processes, k) ==> mailboxWF(smVal(n.processes, k).(*process)))
+//@   loop 1 invariant [idx1] -1 <= rangeindex && rangeindex < len(linkConsumers) && linkConsumers == lastLinks() && monitorConsumers == lastMonitors() && nodupPIDs(linkConsumers) && nodupPIDs(monitorConsumers) && remote != nil
+//@   loop 1 invariant [exits_later_untouched] forall j int :: rangeindex < j && j < len(linkConsumers) ==> exitSent(linkConsumers[j]) == old(exitSent(linkConsumers[j]))
+//@   loop 1 invariant [exits_listed] forall p gen.PID, i int :: 0 <= i && i <= rangeindex && linkConsumers[i] == p ==> exitSent(p) == old(exitSent(p)) + 1
+//@   loop 1 invariant [exits_unlisted] forall p gen.PID :: (forall i int :: 0 <= i && i <= rangeindex ==> linkConsumers[i] != p) ==> exitSent(p) == old(exitSent(p))
+//@   loop 1 invariant [no_down_yet] forall p gen.PID :: routed(p) == old(routed(p))
+//@   loop 2 invariant [idx2] -1 <= rangeindex && rangeindex < len(monitorConsumers) && linkConsumers == lastLinks() && monitorConsumers == lastMonitors() && nodupPIDs(monitorConsumers) && remote != nil
+//@   loop 2 invariant [downs_later_untouched] forall j int :: rangeindex < j && j < len(monitorConsumers) ==> routed(monitorConsumers[j]) == old(routed(monitorConsumers[j]))
+//@   loop 2 invariant [downs_listed] forall p gen.PID, i int :: 0 <= i && i <= rangeindex && monitorConsumers[i] == p ==> routed(p) == old(routed(p)) + 1
+//@   loop 2 invariant [downs_unlisted] forall p gen.PID :: (forall i int :: 0 <= i && i <= rangeindex ==> monitorConsumers[i] != p) ==> routed(p) == old(routed(p))
+//@   loop 2 invariant [exits_done_listed] forall p gen.PID, i int :: 0 <= i && i < len(linkConsumers) && linkConsumers[i] == p ==> exitSent(p) == old(exitSent(p)) + 1
+//@   loop 2 invariant [exits_done_unlisted] forall p gen.PID :: (forall i int :: 0 <= i && i < len(linkConsumers) ==> linkConsumers[i] != p) ==> exitSent(p) == old(exitSent(p))
+//@   at call sendExitMessage assert [exit_names_target_and_reason] typeis(message, gen.MessageExitPID) && message.(gen.MessageExitPID).PID == target && message.(gen.MessageExitPID).Reason == reason
+//@   at call RouteSendPID assert [down_is_high_priority_and_names_target_and_reason] options.Priority == gen.MessagePriorityHigh && typeis(message, gen.MessageDownPID) && message.(gen.MessageDownPID).PID == target && message.(gen.MessageDownPID).Reason == reason
+//@   ensures [one_exit_per_link_consumer] result == nil ==> forall p gen.PID, i int :: 0 <= i && i < len(lastLinks()) && lastLinks()[i] == p ==> exitSent(p) == old(exitSent(p)) + 1
+//@   ensures [no_exit_for_others] result == nil ==> forall p gen.PID :: (forall i int :: 0 <= i && i < len(lastLinks()) ==> lastLinks()[i] != p) ==> exitSent(p) == old(exitSent(p))
+//@   ensures [one_down_per_monitor_consumer] result == nil ==> forall p gen.PID, i int :: 0 <= i && i < len(lastMonitors()) && lastMonitors()[i] == p ==> routed(p) == old(routed(p)) + 1
+//@   ensures [no_down_for_others] result == nil ==> forall p gen.PID :: (forall i int :: 0 <= i && i < len(lastMonitors()) ==> lastMonitors()[i] != p) ==> routed(p) == old(routed(p))
+
+//@ func (n *node) RouteTerminateEvent
+//@   props C04 C03 C14
+//@   mode int
+//@   may_panic
+//@   requires [tables] processesWF(n) && namesWF(n) && (forall k any :: smHas(n.processes, k) ==> mailboxWF(smVal(n.processes, k).(*process)))
+//@   loop 1 invariant [idx1] -1 <= rangeindex && rangeindex < len(linkConsumers) && linkConsumers == lastLinks() && monitorConsumers == lastMonitors() && nodupPIDs(linkConsumers) && nodupPIDs(monitorConsumers) && remote != nil
+//@   loop 1 invariant [exits_later_untouched] forall j int :: rangeindex < j && j < len(linkConsumers) ==> exitSent(linkConsumers[j]) == old(exitSent(linkConsumers[j]))
+//@   loop 1 invariant [exits_listed] forall p gen.PID, i int :: 0 <= i && i <= rangeindex && linkConsumers[i] == p ==> exitSent(p) == old(exitSent(p)) + 1
+//@   loop 1 invariant [exits_unlisted] forall p gen.PID :: (forall i int :: 0 <= i && i <= rangeindex ==> linkConsumers[i] != p) ==> exitSent(p) == old(exitSent(p))
+//@   loop 1 invariant [no_down_yet] forall p gen.PID :: routed(p) == old(routed(p))
+//@   loop 2 invariant [idx2] -1 <= rangeindex && rangeindex < len(monitorConsumers) && linkConsumers == lastLinks() && monitorConsumers == lastMonitors() && nodupPIDs(monitorConsumers) && remote != nil
+//@   loop 2 invariant [downs_later_untouched] forall j int :: rangeindex < j && j < len(monitorConsumers) ==> routed(monitorConsumers[j]) == old(routed(monitorConsumers[j]))
+//@   loop 2 invariant [downs_listed] forall p gen.PID, i int :: 0 <= i && i <= rangeindex && monitorConsumers[i] == p ==> routed(p) == old(routed(p)) + 1
+//@   loop 2 invariant [downs_unlisted] forall p gen.PID :: (forall i int :: 0 <= i && i <= rangeindex ==> monitorConsumers[i] != p) ==> routed(p) == old(routed(p))
+//@   loop 2 invariant [exits_done_listed] forall p gen.PID, i int :: 0 <= i && i < len(linkConsumers) && linkConsumers[i] == p ==> exitSent(p) == old(exitSent(p)) + 1
+//@   loop 2 invariant [exits_done_unlisted] forall p gen.PID :: (forall i int :: 0 <= i && i < len(linkConsumers) ==> linkConsumers[i] != p) ==> exitSent(p) == old(exitSent(p))
+//@   at call sendExitMessage assert [exit_names_target_and_reason] typeis(message, gen.MessageExitEvent) && message.(gen.MessageExitEvent).Event == target && message.(gen.MessageExitEvent).Reason == reason
+//@   at call RouteSendPID assert [down_is_high_priority_and_names_target_and_reason] options.Priority == gen.MessagePriorityHigh && typeis(message, gen.MessageDownEvent) && message.(gen.MessageDownEvent).Event == target && message.(gen.MessageDownEvent).Reason == reason
+//@   ensures [one_exit_per_link_consumer] result == nil ==> forall p gen.PID, i int :: 0 <= i && i < len(lastLinks()) && lastLinks()[i] == p ==> exitSent(p) == old(exitSent(p)) + 1
+//@   ensures [no_exit_for_others] result == nil ==> forall p gen.PID :: (forall i int :: 0 <= i && i < len(lastLinks()) ==> lastLinks()[i] != p) ==> exitSent(p) == old(exitSent(p))
+//@   ensures [one_down_per_monitor_consumer] result == nil ==> forall p gen.PID, i int :: 0 <= i && i < len(lastMonitors()) && lastMonitors()[i] == p ==> routed(p) == old(routed(p)) + 1
+//@   ensures [no_down_for_others] result == nil ==> forall p gen.PID :: (forall i int :: 0 <= i && i < len(lastMonitors()) ==> lastMonitors()[i] != p) ==> routed(p) == old(routed(p))
+
+//@ func (n *node) RouteTerminateAlias
+//@   props C04 C03 C14
+//@   mode int
+//@   may_panic
+//@   requires [tables] processesWF(n) && namesWF(n) && (forall k any :: smHas(n.processes, k) ==> mailboxWF(smVal(n.processes, k).(*process)))
+//@   loop 1 invariant [idx1] -1 <= rangeindex && rangeindex < len(linkConsumers) && linkConsumers == lastLinks() && monitorConsumers == lastMonitors() && nodupPIDs(linkConsumers) && nodupPIDs(monitorConsumers) && remote != nil
+//@   loop 1 invariant [exits_later_untouched] forall j int :: rangeindex < j && j < len(linkConsumers) ==> exitSent(linkConsumers[j]) == old(exitSent(linkConsumers[j]))
+//@   loop 1 invariant [exits_listed] forall p gen.PID, i int :: 0 <= i && i <= rangeindex && linkConsumers[i] == p ==> exitSent(p) == old(exitSent(p)) + 1
+//@   loop 1 invariant [exits_unlisted] forall p gen.PID :: (forall i int :: 0 <= i && i <= rangeindex ==> linkConsumers[i] != p) ==> exitSent(p) == old(exitSent(p))
+//@   loop 1 invariant [no_down_yet] forall p gen.PID :: routed(p) == old(routed(p))
+//@   loop 2 invariant [idx2] -1 <= rangeindex && rangeindex < len(monitorConsumers) && linkConsumers == lastLinks() && monitorConsumers == lastMonitors() && nodupPIDs(monitorConsumers) && remote != nil
+//@   loop 2 invariant [downs_later_untouched] forall j int :: rangeindex < j && j < len(monitorConsumers) ==> routed(monitorConsumers[j]) == old(routed(monitorConsumers[j]))
+//@   loop 2 invariant [downs_listed] forall p gen.PID, i int :: 0 <= i && i <= rangeindex && monitorConsumers[i] == p ==> routed(p) == old(routed(p)) + 1
+//@   loop 2 invariant [downs_unlisted] forall p gen.PID :: (forall i int :: 0 <= i && i <= rangeindex ==> monitorConsumers[i] != p) ==> routed(p) == old(routed(p))
+//@   loop 2 invariant [exits_done_listed] forall p gen.PID, i int :: 0 <= i && i < len(linkConsumers) && linkConsumers[i] == p ==> exitSent(p) == old(exitSent(p)) + 1
+//@   loop 2 invariant [exits_done_unlisted] forall p gen.PID :: (forall i int :: 0 <= i && i < len(linkConsumers) ==> linkConsumers[i] != p) ==> exitSent(p) == old(exitSent(p))
+//@   at call sendExitMessage assert [exit_names_target_and_reason] typeis(message, gen.MessageExitAlias) && message.(gen.MessageExitAlias).Alias == target && message.(gen.MessageExitAlias).Reason == reason
+//@   at call RouteSendPID assert [down_is_high_priority_and_names_target_and_reason] options.Priority == gen.MessagePriorityHigh && typeis(message, gen.MessageDownAlias) && message.(gen.MessageDownAlias).Alias == target && message.(gen.MessageDownAlias).Reason == reason
+//@   ensures [one_exit_per_link_consumer] result == nil ==> forall p gen.PID, i int :: 0 <= i && i < len(lastLinks()) && lastLinks()[i] == p ==> exitSent(p) == old(exitSent(p)) + 1
+//@   ensures [no_exit_for_others] result == nil ==> forall p gen.PID :: (forall i int :: 0 <= i && i < len(lastLinks()) ==> lastLinks()[i] != p) ==> exitSent(p) == old(exitSent(p))
+//@   ensures [one_down_per_monitor_consumer] result == nil ==> forall p gen.PID, i int :: 0 <= i && i < len(lastMonitors()) && lastMonitors()[i] == p ==> routed(p) == old(routed(p)) + 1
+//@   ensures [no_down_for_others] result == nil ==> forall p gen.PID :: (forall i int :: 0 <= i && i < len(lastMonitors()) ==> lastMonitors()[i] != p) ==> routed(p) == old(routed(p))
+
+//@ func (n *node) RouteTerminateProcessID
+//@   props C04 C03 C14
+//@   mode int
+//@   may_panic
+//@   requires [tables] processesWF(n) && namesWF(n) && (forall k any :: smHas(n.processes, k) ==> mailboxWF(smVal(n.processes, k).(*process)))
+//@   loop 1 invariant [idx1] -1 <= rangeindex && rangeindex < len(linkConsumers) && linkConsumers == lastLinks() && monitorConsumers == lastMonitors() && nodupPIDs(linkConsumers) && nodupPIDs(monitorConsumers) && remote != nil
+//@   loop 1 invariant [exits_later_untouched] forall j int :: rangeindex < j && j < len(linkConsumers) ==> exitSent(linkConsumers[j]) == old(exitSent(linkConsumers[j]))
+//@   loop 1 invariant [exits_listed] forall p gen.PID, i int :: 0 <= i && i <= rangeindex && linkConsumers[i] == p ==> exitSent(p) == old(exitSent(p)) + 1
+//@   loop 1 invariant [exits_unlisted] forall p gen.PID :: (forall i int :: 0 <= i && i <= rangeindex ==> linkConsumers[i] != p) ==> exitSent(p) == old(exitSent(p))
+//@   loop 1 invariant [no_down_yet] forall p gen.PID :: routed(p) == old(routed(p))
+//@   loop 2 invariant [idx2] -1 <= rangeindex && rangeindex < len(monitorConsumers) && linkConsumers == lastLinks() && monitorConsumers == lastMonitors() && nodupPIDs(monitorConsumers) && remote != nil
+//@   loop 2 invariant [downs_later_untouched] forall j int :: rangeindex < j && j < len(monitorConsumers) ==> routed(monitorConsumers[j]) == old(routed(monitorConsumers[j]))
+//@   loop 2 invariant [downs_listed] forall p gen.PID, i int :: 0 <= i && i <= rangeindex && monitorConsumers[i] == p ==> routed(p) == old(routed(p)) + 1
+//@   loop 2 invariant [downs_unlisted] forall p gen.PID :: (forall i int :: 0 <= i && i <= rangeindex ==> monitorConsumers[i] != p) ==> routed(p) == old(routed(p))
+//@   loop 2 invariant [exits_done_listed] forall p gen.PID, i int :: 0 <= i && i < len(linkConsumers) && linkConsumers[i] == p ==> exitSent(p) == old(exitSent(p)) + 1
+//@   loop 2 invariant [exits_done_unlisted] forall p gen.PID :: (forall i int :: 0 <= i && i < len(linkConsumers) ==> linkConsumers[i] != p) ==> exitSent(p) == old(exitSent(p))
+//@   at call sendExitMessage assert [exit_names_target_and_reason] typeis(message, gen.MessageExitProcessID) && message.(gen.MessageExitProcessID).ProcessID == target && message.(gen.MessageExitProcessID).Reason == reason
+//@   at call RouteSendPID assert [down_is_high_priority_and_names_target_and_reason] options.Priority == gen.MessagePriorityHigh && typeis(message, gen.MessageDownProcessID) && message.(gen.MessageDownProcessID).ProcessID == target && message.(gen.MessageDownProcessID).Reason == reason
+//@   ensures [one_exit_per_link_consumer] result == nil ==> forall p gen.PID, i int :: 0 <= i && i < len(lastLinks()) && lastLinks()[i] == p ==> exitSent(p) == old(exitSent(p)) + 1
+//@   ensures [no_exit_for_others] result == nil ==> forall p gen.PID :: (forall i int :: 0 <= i && i < len(lastLinks()) ==> lastLinks()[i] != p) ==> exitSent(p) == old(exitSent(p))
+//@   ensures [one_down_per_monitor_consumer] result == nil ==> forall p gen.PID, i int :: 0 <= i && i < len(lastMonitors()) && lastMonitors()[i] == p ==> routed(p) == old(routed(p)) + 1
+//@   ensures [no_down_for_others] result == nil ==> forall p gen.PID :: (forall i int :: 0 <= i && i < len(lastMonitors()) ==> lastMonitors()[i] != p) ==> routed(p) == old(routed(p))
